@@ -366,6 +366,42 @@ theorem convertBits_5_8_err (d5 : Bytes) (e : Err) (h : convertBits d5 5 8 false
       · cases h; exact Or.inr (Or.inr rfl)
       · cases h
 
+/-- the three outcomes of 5→8 on symbols < 32, by the number of left-over bits
+    `5·n mod 8` and their value (the last `5·n mod 8` bits of the bit string) -/
+theorem convertBits_5_8_cases (d5 : Bytes) (hall : ∀ v ∈ d5, v.toNat < 2 ^ 5) :
+    (5 * d5.length % 8 ≥ 5 → convertBits d5 5 8 false = .error .badPaddingIllegal) ∧
+    (5 * d5.length % 8 < 5 → (flatBits 5 d5).drop (5 * d5.length - 5 * d5.length % 8) ≠
+        List.replicate (5 * d5.length % 8) false → convertBits d5 5 8 false = .error .badPaddingNonZero) := by
+  obtain ⟨acc, bits, new, c1, c2, c3, c4⟩ := cbLoop_spec (f := 5) (t := 8) (by decide) (by decide) (by decide)
+    (mask_eq_mod (by decide)) d5 0 0 [] (by decide) hall
+  simp only [List.nil_append, bitsBE] at c1 c4
+  have hlen := congrArg List.length c4
+  simp only [List.length_append, flatBits_length, bitsBE_length] at hlen
+  have hbits : bits = 5 * d5.length % 8 := by omega
+  rw [convertBits_of_loop c1]
+  simp only [Bool.false_eq_true, if_false]
+  constructor
+  · intro h
+    rw [if_pos (by omega)]
+  · intro h hne
+    rw [if_neg (by omega), pad_toNat (by decide) (by omega)]
+    have hdrop : (flatBits 5 d5).drop (5 * d5.length - 5 * d5.length % 8) = bitsBE bits acc := by
+      rw [← c4]
+      have : 5 * d5.length - 5 * d5.length % 8 = (flatBits 8 new).length := by
+        rw [flatBits_length]; omega
+      rw [this, List.drop_left]
+    rw [hdrop, ← hbits] at hne
+    have hnz : (acc * 2 ^ (8 - bits)) % 2 ^ 8 ≠ 0 := by
+      intro hz
+      apply hne
+      have hp := pad_bits (t := 8) (bits := bits) (by omega) acc
+      rw [hz, bitsBE_zero] at hp
+      have hsplit : List.replicate 8 false = List.replicate bits false ++ List.replicate (8 - bits) false := by
+        rw [List.replicate_append_replicate]; congr 1; omega
+      rw [hsplit] at hp
+      exact (List.append_inj hp (by simp [bitsBE_length])).1.symm
+    rw [if_pos hnz]
+
 /-- `convertBits_inverse`, direction encode-then-decode -/
 theorem convertBits_8_5_8 (data out : Bytes) (h : convertBits data 8 5 true = .ok out) :
     convertBits out 5 8 false = .ok data := by
